@@ -145,6 +145,7 @@ ARCH = {
     "arm64": dict(w=8, regs=["x%d" % i for i in range(29)] + ["fp", "lr", "sp", "pc"], alias={"x29": "fp", "x30": "lr"},
                   sp="sp", ip="pc", saved=["x%d" % i for i in range(19, 29)] + ["fp"], strict_sp=False,
                   strip=["pc", "lr", "fp"]),
+    # (the pre-2016 arm64 context layout, driven through arm64_old.rs, is added below: ARCH["arm64_old"] = ARCH["arm64"])
     # 32-bit ARM: r11/r13/r14/r15 are other names of fp/sp/lr/pc; a context frame may be a leaf (sp may stay)
     "arm": dict(w=4, regs=["r%d" % i for i in range(11)] + ["r12", "fp", "sp", "lr", "pc"],
                 alias={"r11": "fp", "r13": "sp", "r14": "lr", "r15": "pc"}, sp="sp", ip="pc",
@@ -156,6 +157,9 @@ ARCH = {
     "mips64": dict(w=8, regs=["gp", "sp", "fp", "ra", "pc"] + ["s%d" % i for i in range(8)], alias={}, sp="sp", ip="pc",
                    saved=["s%d" % i for i in range(8)] + ["gp", "sp", "fp"], strict_sp=False, strip=[]),
 }
+
+
+ARCH["arm64_old"] = ARCH["arm64"]
 
 
 def canon_name(A, n):
@@ -296,35 +300,37 @@ class C06(PropBase):
     translators = ["c06_cfi_ops.py", "unwind_consts.py", "c08_tables.py"]
     bins = ["c06"]
     rule = ("case = one STACK CFI INIT record + delta records, a lookup address, callee registers and a memory image, walked "
-            "(A) by SymbolFile::walk_frame with a mock FrameWalker (M: several INIT records with disjoint ranges in one file) or (B) by one walk_stack step through the real "
-            "CfiStackWalker (x86/amd64/arm64). Exhaustive: every expression of length <= L over the 17-token alphabet "
+            "(A) by SymbolFile::walk_frame with a mock FrameWalker (M: several INIT records in one file - disjoint, adjacent, overlapping, duplicated, empty, ending beyond u64) or (B) by one walk_stack step through the real "
+            "CfiStackWalker (x86/amd64/arm64/arm64_old/arm/mips/mips64). Exhaustive: every expression of length <= L over the 17-token alphabet "
             "in each of the three rule positions (.cfa, .ra, a general register) x 6 environments (L=3 quick, 4 thorough on a "
             "sub-grid); random programs to length 24; random delta-record sets around the lookup address incl. duplicate "
             "addresses; rule-isolation pairs (two or three general-register rules per walk); tab / form-feed / repeated separators, 2400-token programs and "
-            "650-character tokens; per-architecture expression grids and beyond-32-bit dereferences for (B). Non-trivial = the walk succeeded (Some). distinct = distinct case lines")
+            "650-character tokens; malformed texts (tokens in front of the first label, lone / double labels); per-architecture expression grids (alias spellings, partial validity sets, a MIPS slot above 2^32) and beyond-32-bit dereferences for (B). Non-trivial = the walk succeeded (Some). distinct = distinct case lines")
     trusted_base = [
         "Coq 8.16.1 kernel (vm_compute only in Examples / witness lemmas)",
-        "translate/c06_cfi_ops.py (Rust subset -> Gen/CfiOps.v: operator arms, default chain, label chain, walk skeleton, record selection; pins of parse_cfi_exprs' commit code, CfiReg / CfiRules derives, StackInfoCfi::memory_range and CfiStackWalker's nine FrameWalker callbacks) and translate/unwind_consts.py (register tables)",
+        "translate/c06_cfi_ops.py (Rust subset -> Gen/CfiOps.v: operator arms, default chain, label chain, walk skeleton, record selection, Register widths of the ARM / MIPS contexts; pins of parse_cfi_exprs' commit code, CfiReg / CfiRules / StackInfoCfi derives, StackInfoCfi::memory_range, CfiStackWalker's nine FrameWalker callbacks, Mips32Context, CONTEXT_ARM::register_is_valid), translate/unwind_consts.py (register tables) and translate/c08_tables.py (memory_range, into_rangemap_safe, range-map: the record table of C06/FileTable.v is C08's generated one)",
         "the hand-written parts of C06/Model.v that no translator regenerates: split_ascii_whitespace (is_ws), i64::from_str (parse_int), the HashMap as an association list, the slice bounds of commit, cfi_covers, the mock walker, memoize / width check of real_ops; tied to the code by the correspondence run",
-        "nom parsing of the STACK CFI lines, RangeMap lookup of the INIT record and <arch>::get_caller_by_cfi post-processing are exercised by the harness, not proved (post-processing mirrored in C06/Driver.v post_real)",
+        "nom parsing of the STACK CFI lines and <arch>::get_caller_by_cfi / get_caller_frame post-processing are exercised by the harness, not proved (post-processing mirrored in C06/Driver.v post_real and C06/ArchDriver.v post_real2); the RangeMap lookup of the INIT record is C08's model (rm_get), reused",
         "extraction: ExtrOcamlBasic only; ocaml/zconv.ml + ocaml/c06/main.ml glue; harness/src/bin/c06.rs + harness/src/cfi_common.rs (mock FrameWalker, one-step walk_stack driver)",
     ]
     manifest = {
         "text": "Theorems (Coq, all rule texts as byte strings, all walkers, both profiles): STACK CFI evaluation never panics (slice bounds, unreachable!, rhs-1, "
                 "wrapping_div/rem by zero), the result does not depend on the order in which non-.cfa/.ra rules are applied when targets do not alias, each documented "
                 "failure makes exactly its rule fail (mandatory rule -> None, other register -> cleared), a whole unwind step (INIT + delta records, lookup address) equals "
-                "an independent transcription of the documented semantics for the abstract walker and for CfiStackWalker on x86/amd64/arm64 (c06_refines_spec, "
-                "c06_real_walker_refines_spec), re-tokenising the kept substring yields the model's token lists (c06_retokenise), record selection = the delta records at or below the lookup address in (address, text) order (c06_selection_spec), declarative specs of the tokenizer and of decimal literals (c06_tokenizer_spec, c06_literal_spec), aliasing targets of the real walker: the greatest register name decides (c06_real_alias_last_name_wins). The evaluator these theorems speak about is "
+                "an independent transcription of the documented semantics for the abstract walker and for CfiStackWalker on every architecture table (c06_refines_spec, "
+                "c06_real_walker_refines_spec); the extracted walk_stack entry point for x86/amd64/arm64/arm/mips/mips64 equals that documented result followed by the per-architecture hand-over (c06_real_end_to_end; tables well-formed and computed from the generated constants, c06_arch_tables_wellformed); several INIT records in one file go through C08's generated record table: never a panic, a lookup returns only a record of the file that covers the address, an isolated record is always found, of overlapping records the smallest (start, end) key wins (c06_file_table, c06_file_walk, c06_overlap_first_key_wins, c06_file_refines_spec), re-tokenising the kept substring yields the model's token lists (c06_retokenise), record selection = the delta records at or below the lookup address in (address, text) order (c06_selection_spec), declarative specs of the tokenizer and of decimal literals (c06_tokenizer_spec, c06_literal_spec), aliasing targets of the real walker: the greatest register name decides (c06_real_alias_last_name_wins). The evaluator these theorems speak about is "
                 "REGENERATED from walker.rs / mod.rs / parser.rs on every run (Gen/CfiOps.v: operator arms as statement lists, default chain, label chain, walk skeleton, "
                 "record selection) and proved equal to the hand model (c06_gen_model_is_model, c06_gen_*); the architecture tables are those of Gen/UnwindConsts.v "
                 "(c06_arch_tables_pinned). The extracted generated model is compared with the code on exhaustive short programs in every rule position, rule-isolation "
-                "pairs, random long programs, odd spacing / very long inputs, delta-record sets, through a mock FrameWalker and through walk_stack on x86/amd64/arm64 (incl. "
+                "pairs, random long programs, odd spacing / very long inputs, malformed texts, delta-record sets, files with several (also overlapping) INIT records, through a mock FrameWalker and through walk_stack on x86/amd64/arm64 (both context layouts)/arm/mips/mips64 (incl. "
                 "dereferences beyond 32 bits), debug and release; an independent Python reference interpreter judges every implementation answer.",
         "note": "Trusted: Coq kernel; translators; hand-written tokenizer / integer parser / walker tables (correspondence-checked); extraction + OCaml/Rust glue; nom line parsing and per-arch post-processing only exercised. No axioms.",
     }
     assumptions = ["tracing side effects not modelled",
                    "non-ASCII rule text is rejected by the parser (from_utf8) before it reaches the evaluator; generators are ASCII (incl. \\t, \\x0b, \\x0c; \\n and \\r end the record line)",
-                   "duplicate delta addresses are ordered by rule text (CfiRules' derived Ord), which the oracle adopts as the meaning of 'address order'"]
+                   "duplicate delta addresses are ordered by rule text (CfiRules' derived Ord), which the oracle adopts as the meaning of 'address order'",
+                   "overlapping INIT records are malformed input: the oracle accepts the walk of any covering record or None (the model, C08's record table, fixes which: the smallest (start, end) key); an INIT record ending at 2^64-1 has no range",
+                   "a 32-bit MIPS context whose 64-bit slots hold values above 2^32: rules read the low 32 bits (Mips32Context), forwarded registers keep the slot"]
 
     def canon_model(self, case, ans):
         return "P;;" if ans.startswith("P;;") else ans
@@ -635,6 +641,16 @@ class C06(PropBase):
                         dist["by_kind"]["B"] += 1
                         dist["real_walker"] += 1
                         dist["wide_deref"] = dist.get("wide_deref", 0) + 1
+        # the old arm64 context layout goes through its own copy of the unwinder (arm64_old.rs): every third arm64 case again
+        n64 = 0
+        for c in list(cases):
+            if c.startswith("B|arm64|"):
+                n64 += 1
+                if n64 % 3 == 0:
+                    cases.append("B|arm64_old|" + c[len("B|arm64|"):])
+                    dist["by_kind"]["B"] += 1
+                    dist["real_walker"] += 1
+                    dist["arm64_old"] = dist.get("arm64_old", 0) + 1
         return cases, dist, True
 
     # ------------------------------------------------------------------ oracle
